@@ -164,6 +164,12 @@ func (c *evalCtx) eval(s *sg.Schema, v any, path string, pos ctxPos) {
 			return // defect model: such a definition is interface{}
 		}
 		// a referenced definition is never an "inline item"
+		if s.HasEnum || len(s.Types) > 0 || hasTypeSpecificKeywords(s) {
+			// validation keywords next to a $ref: ignored up to draft-07, applied since 2019-09 - no opinion (strata
+			// state their verdicts for documents on which both readings agree)
+			c.dontcare("ref-with-sibling-keywords", path)
+			return
+		}
 		c.eval(s.Target, v, path, ctxPos{addProp: pos.addProp, nonPtr: pos.nonPtr, viaRef: true})
 		return
 	}
